@@ -240,6 +240,10 @@ class Repo:
                     if expand_iter_sentinel_loops(rel, self.modules[rel]):
                         self.modules[rel].reindex()
                 if os.environ.get('SA_NO_CANON') != '1':
+                    from .canon import expand_enumerate_counters
+                    if expand_enumerate_counters(rel, self.modules[rel]):
+                        self.modules[rel].reindex()
+                if os.environ.get('SA_NO_CANON') != '1':
                     from .canon import unroll_constant_loops
                     if unroll_constant_loops(rel, self.modules[rel]):
                         self.modules[rel].reindex()
